@@ -181,7 +181,6 @@ fn classify(e: &anyhow::Error) -> OpResult {
             FeigError::UnknownToken(s) => ErrKind::UnknownToken(s.clone()),
             FeigError::NoCardPresented => ErrKind::NoCardPresented,
             FeigError::NeedsPinEntry => ErrKind::NeedsPinEntry,
-            FeigError::UnexpectedPacket => ErrKind::UnexpectedPacket,
             // a variant this harness does not know (added by a later change of the crate)
             #[allow(unreachable_patterns)]
             _ => ErrKind::Other,
@@ -371,6 +370,8 @@ pub fn execute(plan: &ClientPlan) -> ClientRun {
             pre_authorization_amount: plan.cfg.pre_auth as usize,
             read_card_timeout: plan.cfg.read_card_timeout,
             password: plan.cfg.password as usize,
+            // (tolerates configuration fields added later)
+            ..FeigConfig::default()
         },
     };
     let config = Config {
@@ -379,6 +380,7 @@ pub fn execute(plan: &ClientPlan) -> ClientRun {
         ip_address: Ipv4Addr::new(192, 168, 0, 59),
         feig_config,
         transactions_max_num: plan.cfg.max_tx as usize,
+        ..Config::default()
     };
 
     {
@@ -553,13 +555,15 @@ pub fn run(plan: &ClientPlan) -> ClientRun {
 
 impl ClientRun {
     /// Requests (command frames) the terminal received during call `op`.
+    /// The command frames the terminal received during call `op` - without the handshake frames
+    /// (Registration + identity request) of any connection that was opened during it.
     pub fn requests_of(&self, op: i32) -> Vec<ReqLog> {
         self.pt
             .lock()
             .unwrap()
             .requests
             .iter()
-            .filter(|r| r.op == op)
+            .filter(|r| r.op == op && !r.handshake)
             .cloned()
             .collect()
     }
